@@ -24,13 +24,14 @@ const Preamble = `(declare-fun slen (Int) Int)
 (declare-fun iplb (Int) Bool)
 (declare-fun iboxb (Int Bool) Int)
 (declare-fun implements (Int Int) Bool)
-(declare-fun mlen (Int) Int)
+(declare-fun maplen ((Array Int Bool)) Int)
 (declare-fun clofn (Int) Int)
 (declare-fun uf_bits (Int Int Int) Int)
 (declare-fun uf_conv (Int Int) Int)
 (define-fun godiv ((a Int) (b Int)) Int (ite (>= a 0) (div a b) (- (div (- a) b))))
 (define-fun gomod ((a Int) (b Int)) Int (- a (* b (godiv a b))))
 (assert (= (slen 0) 0))
+(assert (forall ((r (Array Int Bool))) (! (>= (maplen r) 0) :pattern ((maplen r)))))
 (assert (forall ((x Int)) (! (>= (slen x) 0) :pattern ((slen x)))))
 (assert (forall ((x Int)) (! (=> (= (slen x) 0) (= x 0)) :pattern ((slen x)))))
 (assert (= (sl_len 0) 0))
@@ -391,14 +392,16 @@ func (vc *VC) callMods(ins ssa.CallInstruction, ms *modSet) {
 			}
 		}
 	}
+	inferred := (fc == nil || !fc.HasMod) && fn != nil && vc.P.InRepo(FuncPkgPath(fn)) && vc.inferPure(fn)
 	switch {
+	case inferred:
 	case fc != nil && fc.Pure:
 	case fc != nil && fc.HasMod:
 		for _, m := range fc.Modifies {
 			switch m {
 			case "*":
 				ms.all = true
-			case "heap":
+			case "heap", "reachable v", "reachable out":
 				ms.heap = true
 				if ms.keepSet {
 					ms.keep = intersect(ms.keep, fc.Preserves)
